@@ -355,3 +355,31 @@ pub fn check_verdict(rec: &J) -> Verdict {
         }
     }
 }
+
+/// Family `dettext` (C10, text level): parsing and linting the same text repeatedly, in this process and in a second one,
+/// gives byte-identical syntax-tree dumps, error messages and lint reports.
+pub fn text_outcome(rec: &J) -> Verdict {
+    let text = concretise_src(rec["text"].as_str().unwrap());
+    let (dump, lint) = match rrss::frontend::parser::parse(&text) {
+        Ok(p) => (format!("{:#?}", p), rrss::linter::standard_linter().run(&p).diags.iter().map(|d| format!("{}|{}|{:?}", d.line, d.issue, d.suggestions)).collect::<Vec<_>>().join("\n")),
+        Err(e) => (format!("ERR {}", e), String::new()),
+    };
+    Verdict::ok_with(true, json!({"dump": dump, "lint": lint}))
+}
+pub fn check_dettext(rec: &J, helper: &mut Option<crate::Helper>) -> Verdict {
+    let first = match catch_unwind(AssertUnwindSafe(|| text_outcome(rec).obs)) {
+        Ok(o) => o,
+        Err(p) => return Verdict::viol(format!("front end or linter panicked: {}", panic_msg(p)), J::Null),
+    };
+    for k in 0..3 {
+        if text_outcome(rec).obs != first {
+            return Verdict::viol(format!("repetition {} in the same process gives a different dump or lint report", k + 2), J::Null);
+        }
+    }
+    let h = helper.get_or_insert_with(|| crate::Helper::spawn("textoutcome"));
+    match h.ask(rec) {
+        Some(other) if other == first => Verdict::ok(true),
+        Some(_) => Verdict::viol("a second process gives a different dump or lint report".into(), J::Null),
+        None => Verdict::viol("second process crashed on this text".into(), J::Null),
+    }
+}
